@@ -12,6 +12,7 @@ import (
 	"fmt"
 	"io"
 	"math/rand"
+	"regexp"
 	"strconv"
 	"strings"
 	"sync"
@@ -62,6 +63,8 @@ type Pair struct {
 	Errs     struct {
 		sync.Mutex
 		L []string
+		// Classes: error texts with digits and hex strings blanked -> count
+		Classes map[string]int
 	}
 	Units    atomic.Int64
 	stop     chan struct{}
@@ -70,12 +73,14 @@ type Pair struct {
 	// counters observed by the server handler
 	Handled atomic.Int64
 	// write-error injection on the client side (udp): fail the next n writes
-	FailWrites atomic.Int64
-	obsTokens  sync.Map // token string -> struct{} (server side registered observers)
-	srvNotify  func(tok []byte, seq uint32, body []byte) error
-	busy       atomic.Int64
-	stormMu    sync.Mutex
-	storm      map[string]int
+	FailWrites  atomic.Int64
+	obsTokens   sync.Map // token string -> struct{} (server side registered observers)
+	srvNotify   func(tok []byte, seq uint32, body []byte) error
+	busy        atomic.Int64
+	stormMu     sync.Mutex
+	storm       map[string]int
+	wireMu      sync.Mutex
+	wireGarbage []string
 	// optional monitors around the server-side application handler
 	HandlerEnter func(r *pool.Message) any
 	HandlerExit  func(r *pool.Message, state any)
@@ -84,6 +89,13 @@ type Pair struct {
 	// interleaving in which a wrong "is it still mine?" decision of the library shows.
 	HoldAfterHijack atomic.Bool
 	hijackWait      sync.Map // *pool.Message -> chan struct{}
+}
+
+// WireGarbage returns the datagrams emitted by one of the two real endpoints that are not CoAP messages.
+func (p *Pair) WireGarbage() []string {
+	p.wireMu.Lock()
+	defer p.wireMu.Unlock()
+	return append([]string(nil), p.wireGarbage...)
 }
 
 // StormLimit is the number of relayed datagrams after which a pair stops delivering.
@@ -109,8 +121,33 @@ func (p *Pair) errf(side string) func(error) {
 		if len(p.Errs.L) < 100 {
 			p.Errs.L = append(p.Errs.L, side+": "+err.Error())
 		}
+		if p.Errs.Classes == nil {
+			p.Errs.Classes = map[string]int{}
+		}
+		p.Errs.Classes[side+": "+errClass(err.Error())]++
 		p.Errs.Unlock()
 	}
+}
+
+var errClassRe = regexp.MustCompile(`[0-9a-fA-F]{6,}|[0-9]+`)
+
+func errClass(s string) string {
+	s = errClassRe.ReplaceAllString(s, "N")
+	if len(s) > 120 {
+		s = s[:120]
+	}
+	return s
+}
+
+// ErrClasses returns a copy of the error-class histogram reported through the two endpoints' Errors callbacks.
+func (p *Pair) ErrClasses() map[string]int {
+	p.Errs.Lock()
+	defer p.Errs.Unlock()
+	out := map[string]int{}
+	for k, v := range p.Errs.Classes {
+		out[k] = v
+	}
+	return out
 }
 
 func Body(id int, n int) []byte {
@@ -317,6 +354,19 @@ func NewUDPPair(poolSize int, rule Rule) *Pair {
 	handle := func(dir string, d []byte, to, back *udpclient.Conn) {
 		n := p.Units.Add(1)
 		m, err := ref.ParseUDP(d)
+		if err != nil {
+			// every datagram here was emitted by a real endpoint: one the reference parser rejects is not a CoAP
+			// message (e.g. the poisoned encode buffer of a released message that something still aliased)
+			p.wireMu.Lock()
+			if len(p.wireGarbage) < 20 {
+				h := d
+				if len(h) > 24 {
+					h = h[:24]
+				}
+				p.wireGarbage = append(p.wireGarbage, fmt.Sprintf("%s %d bytes %x: %v", dir, len(d), h, err))
+			}
+			p.wireMu.Unlock()
+		}
 		if n > StormLimit {
 			// safety valve: a message storm between the two endpoints; stop delivering and keep a histogram
 			if err == nil {
